@@ -35,7 +35,7 @@ static void fresh_driver_message (void)
   M.serial = 0; M.reply_serial = nondet_uint (); M.type = nondet_int ();
   M.sender = TS_SND_CLIENT; M.sender_of = NULL; M.dest = nondet_bool () ? TS_DST_NONE : TS_DST_NAME; M.dest_of = NULL;
   M.unknown_stripped = 1; M.container_cleared = 1; M.local_disconnected = 0; M.auto_start = 0; M.no_reply = nondet_bool (); M.has_fds = 0; M.is_hello = 0;
-  M.error_name = TS_ERR_NONE; M.in_reply_to = NULL; M.has_string_arg = nondet_bool (); M.string_arg = NULL; M.refs = 1;
+  M.error_name = TS_ERR_NONE; M.in_reply_to = NULL; M.has_string_arg = nondet_bool (); M.string_arg = NULL; M.n_string_args = 0; M.refs = 1;
 }
 /* a message as received from a client and sanitized by bus_dispatch */
 static void wire_message (struct ts_conn *from)
@@ -44,7 +44,7 @@ static void wire_message (struct ts_conn *from)
   M.sender = from->active ? TS_SND_UNIQUE : TS_SND_INACTIVE; M.sender_of = from->active ? from : NULL;
   int d = nondet_int (); M.dest = d == 0 ? TS_DST_NONE : d == 1 ? TS_DST_BUS : TS_DST_NAME; M.dest_of = NULL;
   M.unknown_stripped = 1; M.container_cleared = 1; M.local_disconnected = 0; M.auto_start = nondet_bool (); M.no_reply = nondet_bool (); M.has_fds = nondet_bool (); M.is_hello = nondet_bool ();
-  M.error_name = TS_ERR_NONE; M.in_reply_to = NULL; M.has_string_arg = 0; M.string_arg = NULL; M.refs = 1;
+  M.error_name = TS_ERR_NONE; M.in_reply_to = NULL; M.has_string_arg = 0; M.string_arg = NULL; M.n_string_args = 0; M.refs = 1;
 }
 static void any_error (DBusError *e)
 { int k = nondet_int (); e->name = k == 0 ? ts_e_denied : k == 1 ? ts_e_noowner : k == 2 ? ts_e_limits : k == 3 ? ts_e_failed : k == 4 ? ts_e_notsupp : ts_e_other; e->message = ts_s_text; }
